@@ -367,6 +367,61 @@ func TestVerifC18(t *testing.T) {
 		rep.Distinct++
 	}
 
+	// ---- F. the caller of a request gives up while the request is being written: the request is sent all the same and the
+	// server answers it (nobody waits for the answer any more) - request and answer count like any other pair. The connection
+	// then lies idle and is left alone; a request sent later, which the server never answers, is detected one timeout after
+	// it was sent.
+	for _, second := range []string{"get", "put"} {
+		name := fmt.Sprintf("F/caller-gone-while-its-request-is-written-then-silence/second=%s", second)
+		verifsim.Bubble(t, func(t *testing.T) {
+			rt := time.Second
+			var f1 *rcCall
+			var envp atomic.Pointer[rcEnv]
+			var once atomic.Bool
+			env := newRCEnv(rcOpts{queueSize: 1, readTimeout: rt, onHook: func(point string, arg any) {
+				if e := envp.Load(); e != nil && point == "send.written" && once.CompareAndSwap(false, true) {
+					e.cancelCall(f1)
+				}
+			}})
+			defer env.finish()
+			f1 = env.newCall("f1", "get", false)
+			envp.Store(env)
+			env.goQueue(f1)
+			synctest.Wait()
+			select {
+			case req := <-env.reqs:
+				env.respondOK(req, 1, false)
+			default:
+				rep.bad("harness:c18-f", "%s: f1 did not reach the server", name)
+				return
+			}
+			synctest.Wait()
+			time.Sleep(3 * rt)
+			synctest.Wait()
+			if env.isDone() {
+				rep.bad("idle-connection-killed", "%s: the connection was given up while it lay idle (its only request had been answered)", name)
+				return
+			}
+			f2 := env.newCall("f2", second, false)
+			env.goQueue(f2)
+			synctest.Wait()
+			start := time.Now()
+			time.Sleep(rt + rt/100)
+			synctest.Wait()
+			env.quiesce()
+			if r, ok := f2.first(); !ok {
+				rep.bad("silent-server-not-detected", "%s: f2 still waiting %v after it was sent to a silent server (the caller of the request before it "+
+					"had given up while that request was written; the server answered it)", name, time.Since(start))
+			} else if _, isSrv := r.Error.(ServerError); !isSrv {
+				rep.bad("silent-server-wrong-error", "%s: f2 completed with %v, not a connection-level error", name, r.Error)
+			}
+			time.Sleep(2 * rt)
+			synctest.Wait()
+			o.flush(name, env)
+		})
+		rep.Distinct++
+	}
+
 	// ---- C. random interleavings
 	for k := 0; k < nrand; k++ {
 		rng := rand.New(rand.NewSource(seed*1000003 + int64(k)))
